@@ -903,8 +903,18 @@ def remap_by_types(
             t_true = self.lookup_type(t_node.body)
             t_false = self.lookup_type(t_node.orelse)
 
+            def same_dictionary(a, b) -> bool:
+                "Two dictionary literals with the same fields (each literal gets a class of its own)"
+                return (
+                    getattr(a, "__name__", None) == "dict_dataclass"
+                    and getattr(b, "__name__", None) == "dict_dataclass"
+                    and is_dataclass(a)
+                    and is_dataclass(b)
+                    and get_type_hints(a) == get_type_hints(b)
+                )
+
             final_type = Any
-            if t_true == t_false:
+            if t_true == t_false or same_dictionary(t_true, t_false):
                 final_type = t_true
             elif t_true in [int, float, Any] and t_false in [int, float, Any]:
                 final_type = float
